@@ -193,6 +193,10 @@ def classify(j, diff, a, e):
         if tag in j.get("tags", []):
             if all(_resort(a[f], j["S"]) == _resort(e[f], j["S"]) for f in diff):
                 return kfid
+    # KF-16e: the legacy analyzer takes the first part of schema.table.column as the qualifier, i.e. a table named after the schema - which then
+    # gets the default schema on one side only
+    if j["dialect"] == "non-validating" and "col.qualified_by_full_name" in j.get("tags", []):
+        return "KF-16e"
     # KF-14g: the legacy analyzer parses 's.t (select ...)' and stars over nested derived tables differently from their unqualified spelling
     if j["dialect"] == "non-validating" and set(j.get("tags", [])) & {"setop.parenthesised", "select.star_qualified", "select.star"}:
         return "KF-14g"
